@@ -14,10 +14,48 @@ extern const void *__CPROVER_alloca_object;   /* CBMC-internal bookkeeping cell 
 
 #ifndef VERIF_RES_MAXCH
 #define VERIF_RES_MAXCH 256
+
 #endif
 /* ---- ghost --------------------------------------------------------------- */
 int g_cnt[VERIF_RES_MAXCH + 1];      /* g_cnt[i] = number of channels among [0,i) that are to be decoded (built by the harness) */
 float *g_row[VERIF_RES_MAXCH];       /* the bundle as handed in */
 int g_k;                             /* ghost channel */
 int g_01_calls, g_01_ch; float **g_01_in; void *g_01_vb, *g_01_vl; void *g_01_fn;
+#ifdef VERIF_RES_CORE
+/* ---- body-ful stubs for the callees of _01inverse / res2_inverse: they CHECK
+   what the partition decoder hands them (their own contracts: units cb_decodev_add,
+   cb_decodev_set, blk_alloc) ------------------------------------------------- */
+#define VERIF_CORE_MAXCH 2
+codebook *g_phrasebook, *g_stagebook;       /* the classification book / the (one) stage book object */
+float *g_rows[VERIF_CORE_MAXCH]; long g_rowlen;   /* residue vectors and their length (half a block) */
+int g_grouping, g_chs; float **g_in; int g_part_calls, g_class_calls;
+long vorbis_book_decode(codebook *book, oggpack_buffer *b) {
+  __CPROVER_assert(book == g_phrasebook, "classification words are read with the residue's classification book");
+  long r = nondet_long(); __CPROVER_assume(r >= -1 && r < (1L << 24));   /* an ORIGINAL entry number: may exceed partvals (res0_unpack allows entries > parts^dim) */
+  g_class_calls++;
+  return r;
+}
+void *_vorbis_block_alloc(vorbis_block *vb, long bytes) {
+  __CPROVER_assert(bytes >= 0 && bytes <= (1L << 28), "block-local allocation request within _vorbis_block_alloc's precondition");
+  return malloc(bytes);    /* contents arbitrary, as the arena's */
+}
+/* the partition decoders (decodev_add / decodevs_add): n floats at a */
+long verif_decodepart(codebook *book, float *a, oggpack_buffer *b, int n) {
+  __CPROVER_assert(book == g_stagebook, "stage book comes from the residue's book table");
+  __CPROVER_assert(n == g_grouping, "one partition per call");
+  int c = __CPROVER_same_object(a, g_rows[0]) ? 0 : 1;
+  __CPROVER_assert(c < g_chs && __CPROVER_same_object(a, g_rows[c]), "partition lies in one of the bundle's vectors");
+  __CPROVER_assert(a >= g_rows[c] && (a - g_rows[c]) + (long)n <= g_rowlen, "partition [offset, offset+n) inside the vector (residue end clipped to half the block)");
+  g_part_calls++;
+  return nondet_int() ? 0 : -1;
+}
+/* the interleaved decoder of format 2 */
+long vorbis_book_decodevv_add(codebook *book, float **a, long offset, int ch, oggpack_buffer *b, int n) {
+  __CPROVER_assert(book == g_stagebook, "stage book comes from the residue's book table");
+  __CPROVER_assert(n == g_grouping && a == g_in && ch == g_chs, "one partition per call, over the whole bundle");
+  __CPROVER_assert(offset >= 0 && offset + n <= (long)ch * g_rowlen, "interleaved partition [offset, offset+n) inside ch vectors (residue end clipped to ch half blocks)");
+  g_part_calls++;
+  return nondet_int() ? 0 : -1;
+}
+#endif
 #endif
